@@ -6,6 +6,7 @@ import (
 	"fmt"
 	"go/types"
 	"os"
+	"path/filepath"
 	"runtime"
 	"runtime/debug"
 	"sort"
@@ -212,6 +213,48 @@ func instances(t *Term, direct []*Term, goalIdx []*Term) []*Term {
 	return nil
 }
 
+// witnessTerms collects the ground witnesses of assumed existentials (ex_* skolem terms).
+func witnessTerms(t *Term, out map[string]*Term) {
+	if (t.Op == "uf" || t.Op == "sym") && strings.HasPrefix(t.Name, "ex_") && t.Sort == SInt {
+		out[t.String()] = t
+	}
+	for _, a := range t.Args {
+		witnessTerms(a, out)
+	}
+}
+
+// expandExists replaces an existential in positive position by the disjunction of its
+// instances at the hinted terms and the given witnesses.
+func expandExists(t *Term, pos bool, ws []*Term) *Term {
+	switch t.Op {
+	case "exists":
+		if !pos || len(t.Bound) != 1 {
+			return t
+		}
+		var ds []*Term
+		seen := map[string]bool{}
+		for _, c := range append(append([]*Term{}, t.Args[1:]...), ws...) {
+			if seen[c.String()] {
+				continue
+			}
+			seen[c.String()] = true
+			ds = append(ds, expandExists(Subst(t.Args[0], map[string]*Term{t.Bound[0].Name: c}), pos, ws))
+		}
+		return Or(ds...)
+	case "and", "or":
+		args := make([]*Term, len(t.Args))
+		for i, a := range t.Args {
+			args[i] = expandExists(a, pos, ws)
+		}
+		return rebuild(t, args)
+	case "not":
+		return Not(expandExists(t.Args[0], !pos, ws))
+	case "=>":
+		return Implies(expandExists(t.Args[0], !pos, ws), expandExists(t.Args[1], pos, ws))
+	}
+	return t
+}
+
 func indexTerms(t *Term, out map[string]*Term, depth int) {
 	if t.Op == "select" && t.Args[1].Sort == SInt && !t.Args[1].IsLit() {
 		out[t.Args[1].String()] = t.Args[1]
@@ -261,7 +304,55 @@ func (o *Obligation) BuildQuery(inputs []*Term, qf bool) string {
 	}
 	goal := o.Goal
 	if qf && hasQuant(goal) {
-		return ""
+		// existentials to be proved: try the hinted witnesses and the witnesses of assumed
+		// existentials (a disjunction of instances implies the existential, so this is sound)
+		wit := map[string]*Term{}
+		for _, a := range as {
+			witnessTerms(a, wit)
+		}
+		// witnesses of hypotheses instantiated at the goal's own skolem constants come first
+		var ws []*Term
+		isSk := map[string]bool{}
+		for _, sk := range o.Skolems {
+			isSk[sk.String()] = true
+		}
+		for pass := 0; pass < 2; pass++ {
+			for _, k := range sortedKeys(wit) {
+				w := wit[k]
+				direct := len(w.Args) > 0
+				for _, a := range w.Args {
+					if !isSk[a.String()] {
+						direct = false
+					}
+				}
+				if (pass == 0) == direct && len(ws) < 12 {
+					ws = append(ws, w)
+				}
+			}
+		}
+		goal = expandExists(goal, true, ws)
+		if hasQuant(goal) {
+			return ""
+		}
+		// the expanded goal reads new indices: instantiate the quantified assumptions there too
+		idx := map[string]*Term{}
+		indexTerms(goal, idx, 0)
+		var goalIdx []*Term
+		for _, k := range sortedKeys(idx) {
+			goalIdx = append(goalIdx, idx[k])
+		}
+		have := map[string]bool{}
+		for _, a := range as {
+			have[a.String()] = true
+		}
+		for _, a := range quant {
+			for _, i := range instances(a, append(append([]*Term{}, o.Skolems...), ws...), goalIdx) {
+				if !hasQuant(i) && !have[i.String()] {
+					have[i.String()] = true
+					as = append(as, i)
+				}
+			}
+		}
 	}
 	return Query(nil, as, Not(goal), inputs)
 }
@@ -364,6 +455,9 @@ func (o *Obligation) decide(solver *Solver, inputs []*Term) {
 		return
 	}
 	q1 := o.BuildQuery(inputs, true)
+	if d := os.Getenv("GOCV_DUMPQF"); d != "" {
+		_ = os.WriteFile(filepath.Join(d, strings.NewReplacer("/", "_", " ", "_").Replace(o.Name+"_"+fmt.Sprint(len(o.Trail)))+".qf.smt2"), []byte(q1), 0o644)
+	}
 	var r1 *SolveResult
 	if q1 != "" {
 		r1 = solver.Solve(q1)
